@@ -273,6 +273,19 @@ def run(world, rep, tier, only=None):
                        "every path from the advance at line %d to a use of %s passes `if (%s >= last) %s -= ...`%s" %
                        (a_.line, c, c, c, "" if bad is None else "; reaches %s (line %d) unwrapped" % (bad.text()[:40], bad.line)))
         rep.floor("C03.h log cursor advances" + tag, nadv, 4)
+        # ------------------------------------------------------------------ C03.i only the records a revoke block declares are revoked
+        # A revoke block says how much of it is in use (r_count).  What lies behind is not part of the record - the
+        # writers leave zeroes or old bytes there - and a block number read from it would keep a committed,
+        # unrevoked block from being replayed.  The loop that registers revoke records is bounded by r_count.
+        srr = prog.fn("scan_revoke_records", dop.file)
+        regs = calls_to(srr, "jbd2_journal_set_revoke")
+        rep.floor("C03.i revoke registrations in scan_revoke_records" + tag, len(regs), 1)
+        for i, c in enumerate(regs):
+            hb = loop_head(srr, c)
+            cond = (srr.blocks[hb].get("t") or {}).get("c") if hb is not None else None
+            ok = isinstance(cond, dict) and depends_on(srr, cond, lambda y: "r_count" in T.field_names(y), depth=3)
+            rep.ob("C03.i", site(srr, "record loop bounded by the block's r_count%s#%d" % (tag, i)), ok,
+                   "the condition of the loop around jbd2_journal_set_revoke() `%s` derives from header->r_count" % T.pp(cond or {})[:40])
         # non-SCAN descriptor checksum failure fails the pass
         dv = [b for b in dop.blocks if dop.literal(b) and call_atom("jbd2_descriptor_block_csum_verify")(dop.literal(b)[0])]
         rep.ob("C03.c", site(dop, "descriptor checksum verified" + tag), bool(dv), "jbd2_descriptor_block_csum_verify controls a branch")
